@@ -756,6 +756,33 @@ func c20samples(c *core.Ctx) {
 			return
 		}
 		*p1++
+		// Ref gives every call a cell of its own (no interning of common values)
+		{
+			b1, b2 := typ.Ref(true), typ.Ref(true)
+			i1, i2 := typ.Ref(0), typ.Ref(0)
+			s1, s2 := typ.Ref(""), typ.Ref("")
+			if b1 == b2 || i1 == i2 || s1 == s2 {
+				c20fail(c, "Ref:shared-cell", "two Ref calls with equal arguments returned the same pointer")
+				return
+			}
+			*b1, *i1, *s1 = false, 5, "x"
+			if !*b2 || *i2 != 0 || *s2 != "" || !*typ.Ref(true) || *typ.Ref(0) != 0 || *typ.Ref("") != "" {
+				c20fail(c, "Ref:shared-cell", "writing through the result of one Ref call changed what another Ref call (earlier or later) points to")
+				return
+			}
+		}
+		// IsZero on an interface type: plain dynamic types first, then a dynamic type whose
+		// IsZero method says zero (and once more in the other order)
+		{
+			if typ.IsZero[any](3) || typ.IsZero[any]("x") || !typ.IsZero[any](time.Time{}) || !typ.IsZero[any](zeroer{Mark: 4}) || typ.IsZero[any](7) || !typ.IsZero[any](weirdZero{5}) {
+				c20fail(c, "IsZero:interface-type-call-order", "IsZero[any]: after calls with dynamic types that have no IsZero method, a value whose IsZero method reports true must still give true")
+				return
+			}
+			if typ.IsZero[fmt.Stringer](time.Second) || !typ.IsZero[fmt.Stringer](time.Time{}) {
+				c20fail(c, "IsZero:interface-type-call-order", "IsZero[fmt.Stringer]: a plain non-zero value first, then time.Time{} (IsZero true) must give true")
+				return
+			}
+		}
 		// DerefZero is about nil-ness only: a non-nil pointer is dereferenced even when the
 		// pointed-to type has an IsZero method that says "zero"
 		{
